@@ -62,6 +62,9 @@ func TestZZVerifSizes(t *testing.T) {
 			fam = append(fam, st(a, b))
 		}
 	}
+	if os.Getenv("VERIF_TIER") == "thorough" {
+		small = alpha // all three-field structs over the full alphabet
+	}
 	for _, a := range small {
 		for _, b := range small {
 			for _, c := range small {
